@@ -37,11 +37,19 @@ def specEntry (unpackRoot : Option Bytes) (comps : List Bytes) (n : Node) : Opti
 or "..", no '/', no NUL, no LF -/
 def GoodName (c : Bytes) : Prop := c ≠ [] ∧ c ≠ [46] ∧ c ≠ [46, 46] ∧ SL ∉ c ∧ NUL ∉ c ∧ LF ∉ c
 
+/-- a name that can be a directory entry of an image at all (what `sqfs_tree_node_get_path` accepts and a C string
+can hold): `GoodName` without the line-feed clause -/
+def ImgName (c : Bytes) : Prop := c ≠ [] ∧ c ≠ [46] ∧ c ≠ [46, 46] ∧ SL ∉ c ∧ NUL ∉ c
+
+theorem GoodName.img {c : Bytes} (h : GoodName c) : ImgName c := ⟨h.1, h.2.1, h.2.2.1, h.2.2.2.1, h.2.2.2.2.1⟩
+
 /-- a string that fits on a describe line -/
 def LineSafe (s : Bytes) : Prop := NUL ∉ s ∧ LF ∉ s
 
-/-- field widths of the on-disk inode / resolved ids -/
-def Node.Wf (n : Node) : Prop := n.perm < 0o10000 ∧ n.uid < 2^32 ∧ n.gid < 2^32 ∧ n.devno < 2^32 ∧ LineSafe n.target
+/-- field widths of the on-disk inode / resolved ids; the target matters for symlinks only (`inode->extra` of any
+other kind is never read by `describe_tree`) -/
+def Node.Wf (n : Node) : Prop :=
+  n.perm < 0o10000 ∧ n.uid < 2^32 ∧ n.gid < 2^32 ∧ n.devno < 2^32 ∧ (n.kind = .slink → LineSafe n.target)
 
 end Sqfs.Quote
 
@@ -73,5 +81,22 @@ end
 /-- the tree of an image: a nameless root directory over good subtrees -/
 def RootOk : Tree → Prop
   | .mk name node children => name = [] ∧ node.kind = .dir ∧ node.Wf ∧ ForestOk children
+
+/-! ### the same without any line-feed clause: every tree an image can hold (C strings, 16/32-bit fields) -/
+
+/-- field widths; a symlink target is a C string -/
+def Node.WfN (n : Node) : Prop :=
+  n.perm < 0o10000 ∧ n.uid < 2^32 ∧ n.gid < 2^32 ∧ n.devno < 2^32 ∧ (n.kind = .slink → NUL ∉ n.target)
+
+mutual
+def TreeOkN : Tree → Prop
+  | .mk name node children => ImgName name ∧ node.WfN ∧ ForestOkN children
+def ForestOkN : List Tree → Prop
+  | [] => True
+  | t :: ts => TreeOkN t ∧ ForestOkN ts
+end
+
+def RootOkN : Tree → Prop
+  | .mk name node children => name = [] ∧ node.kind = .dir ∧ node.WfN ∧ ForestOkN children
 
 end Sqfs.Quote
